@@ -38,8 +38,8 @@ ASSUMPTIONS = ["reference optimum accepted only with duality gap <= 1e-10", "Fej
 CHUNK = 8
 
 MATS = ["I2", "diag", "real32", "cplx32", "worst6"]
-REGS = [None, "l1", "l2sq", "box"]
-LAM = {"l1": 0.3, "l2sq": 0.5, "box": (-0.25, 0.4)}
+REGS = [None, "l1", "l2sq", "box", "boxfar"]
+LAM = {"l1": 0.3, "l2sq": 0.5, "box": (-0.25, 0.4), "boxfar": (0.0, 1e12)}   # boxfar: non-negativity with a far, never active upper bound
 
 
 def bounds(tier):
@@ -82,6 +82,8 @@ def problem(case, seed):
         y[0] = 1.0
     kind = case["g"]
     par = LAM.get(kind)
+    if kind == "boxfar":
+        kind = "box"
     return A, y, kind, par
 
 
@@ -89,7 +91,7 @@ def gen_cases(tier, seed):
     cases = []
     for A in MATS:
         for g in REGS:
-            if g == "box" and A == "cplx32":
+            if g in ("box", "boxfar") and A == "cplx32":
                 continue
             for x0 in ("zero", "generic"):
                 for alpha in ("1/L", "1/2L"):
@@ -117,7 +119,7 @@ def gen_cases(tier, seed):
             cases.append(dict(kind="gm", A="worst100", g=g, x0="zero", alpha="1/L", acc=acc, tier=tier, K=2000))
     for A in MATS:
         for g in REGS:
-            if g == "box" and A == "cplx32":
+            if g in ("box", "boxfar") and A == "cplx32":
                 continue
             for start in ("zero", "generic", "saddle"):
                 for steps in ("bal1", "bal05", "unbal", "diag"):
